@@ -32,7 +32,7 @@ COMPONENTS = {
     'stub': ['WSGI/ASGI servers and clients', 'event loop scheduler', 'responders executing the access history'],
 }
 EXPECTED_PROBES = ('io_error', 'json_doc', 'form_doc', 'plus_json', 'empty_body', 'truncated', 'corrupted', 'default_used',
-                   'repeat_call', 'parse_attempts_counted', 'asgi_multi_chunk', 'error_cached', 'wsgi', 'asgi')
+                   'repeat_call', 'earlier_request_same_body', 'parse_attempts_counted', 'asgi_multi_chunk', 'error_cached', 'wsgi', 'asgi')
 ASSUMPTIONS = (
     'documents contain no lone surrogates, NaN/Infinity or a top-level null (resp.media = None means "no media")',
     'form mappings use str values or lists of >=2 strs (a 1-element list legitimately comes back as a str)',
@@ -40,7 +40,7 @@ ASSUMPTIONS = (
 )
 
 STRS = ['', 'a', 'plain text', 'ünï ✓', '\U0001F600 astral', 'quote " backslash \\ slash /', 'line\nfeed\ttab\r',
-        '   separators', '</script>', '\x7f del \x01 ctl', '{"not": "json"}', 'key with spaces', '0']
+        '   separators', '\ufffd replacement \ufffd', '</script>', '\x7f del \x01 ctl', '{"not": "json"}', 'key with spaces', '0']
 NUMS = [0, 1, -1, 2 ** 70, -(2 ** 65), 255, 0.5, -0.0, 1e300, 3.141592653589793, 1e-7, True, False, None]
 
 
@@ -260,8 +260,26 @@ def make_app(asgi, kind, ctype, doc, hist, out, counter, propagate, prerender=Fa
                 resp.text = 'done'
                 if propagate and first_err is not None:
                     raise first_err
+    def touch(m):
+        # the application owns what it was given: change it in place
+        if isinstance(m, dict):
+            m['touched-by-the-app'] = True
+        elif isinstance(m, list):
+            m.append('touched-by-the-app')
+
+    if asgi:
+        class Touch(object):
+            async def on_post(self, req, resp):
+                touch(await req.get_media())
+                resp.text = 'touched'
+    else:
+        class Touch(object):
+            def on_post(self, req, resp):
+                touch(req.get_media())
+                resp.text = 'touched'
     app.add_route('/doc', Doc())
     app.add_route('/echo', Echo())
+    app.add_route('/touch', Touch())
     return app
 
 
@@ -333,6 +351,8 @@ def run(ctx):
     custom_resp = ch.draw(3, 'custom_response_type') == 2
     handler_variant = [None, None, None, 'bytes_dumps', 'counting'][ch.draw(5, 'handler_variant')]
     omit_cl = ch.draw(4, 'omit_content_length') == 3      # ASGI only: chunked upload without Content-Length
+    # an earlier request on the same app posts the same (intact) bytes and changes its media in place
+    pre_touch = ch.draw(4, 'earlier_request_same_body') == 3
     short_reads = False     # a single read() is what the handlers do; buffered wsgi.input returns it all
 
     # ---- step 1: serialize through the real response path ---------------------------
@@ -435,7 +455,8 @@ def run(ctx):
                 'fault': list(fault) if fault else None, 'body': body1.decode('utf-8', 'replace')[:200],
                 'propagate': propagate, 'cuts': n_cuts, 'short_reads': short_reads,
                 'prerender': prerender, 'custom_response_type': custom_resp,
-                'handler_variant': handler_variant, 'omit_content_length': omit_cl and asgi}
+                'handler_variant': handler_variant, 'omit_content_length': omit_cl and asgi,
+                'earlier_request_same_body': pre_touch}
     ctx.plan_key = json.dumps(ctx.plan, sort_keys=True, default=repr)
 
     # ---- step 2: send the bytes back ------------------------------------------------------
@@ -446,6 +467,11 @@ def run(ctx):
             c = holder.get('conn')
             return c.recv_calls if c else 0
         app2 = make_app(True, kind, ctype, doc, hist, out, counter, propagate, handler_variant=handler_variant)
+        if pre_touch and body1:
+            ctx.probe('earlier_request_same_body')
+            asgi_request(ctx, app2, 'POST', '/touch', [('Content-Type', ctype), ('Content-Length', str(len(body1)))],
+                         [{'type': 'http.request', 'body': body1, 'more_body': False}], {}, False, True)
+            PARSE_CALLS.get(id(app2), []).clear()
         cuts = sorted(set(c % (len(body2) + 1) for c in cut_draws))
         if fault is not None and fault[0] == 'ioerror':
             cuts = sorted(set(cuts + [len(body2) // 2])) or [1]
@@ -479,6 +505,14 @@ def run(ctx):
         def counter():
             return len(inp.calls)
         app2 = make_app(False, kind, ctype, doc, hist, out, counter, propagate, handler_variant=handler_variant)
+        if pre_touch and body1:
+            ctx.probe('earlier_request_same_body')
+            ex0 = WsgiExchange(ctx)
+            if ex0.call(app2, make_environ(method='POST', path='/touch',
+                                           body_input=SimInput(ctx, body1, b'', short_reads=False, limit=len(body1)),
+                                           content_length=len(body1), content_type=ctype)):
+                ex0.consume()
+            PARSE_CALLS.get(id(app2), []).clear()
         envd = make_environ(method='POST', path='/echo', body_input=inp, content_length=declared,
                             content_type=ctype)
         ex = WsgiExchange(ctx)
